@@ -101,6 +101,7 @@ func c13GenHist(r *rand.Rand) c13Input {
 		in.Cache = []byte(`{"a":`)
 	}
 	in.InitWFail = r.IntN(20) == 0
+	in.File = r.IntN(4) == 0
 	nops := 4 + r.IntN(9)
 	closed := false
 	for i := 0; i < nops; i++ {
